@@ -969,26 +969,7 @@ func (t *c41tTree) ruleP1b(db *packages.Package) {
 			}
 		}
 		par := t.parentMap(fd)
-		ast.Inspect(fd.Body, func(x ast.Node) bool {
-			rs, ok := x.(*ast.RangeStmt)
-			if !ok || rs.Value == nil {
-				return true
-			}
-			vid, ok := rs.Value.(*ast.Ident)
-			if !ok || vid.Name == "_" {
-				return true
-			}
-			v := info.Defs[vid]
-			if v == nil {
-				v = info.Uses[vid]
-			}
-			if v == nil {
-				return true
-			}
-			u := t.nodeOf(v.Type())
-			if u == nil {
-				return true
-			}
+		process := func(loopBody *ast.BlockStmt, v types.Object, u *c41tNode) {
 			aliases := c41tAliases(info, fd.Body, v)
 			var deps *lfDeps
 			mentions := func(e ast.Expr) bool { // directly, or through local variables computed from the child
@@ -1003,11 +984,7 @@ func (t *c41tTree) ruleP1b(db *packages.Package) {
 				})
 				return found
 			}
-			ast.Inspect(rs.Body, func(y ast.Node) bool {
-				if inner, ok := y.(*ast.RangeStmt); ok && inner != rs {
-					// a nested loop over the same value variable is impossible; filters on v inside nested loops are still filters on v
-					_ = inner
-				}
+			ast.Inspect(loopBody, func(y ast.Node) bool {
 				ifs, ok := y.(*ast.IfStmt)
 				if !ok || !mentions(ifs.Cond) {
 					return true
@@ -1027,7 +1004,7 @@ func (t *c41tTree) ruleP1b(db *packages.Package) {
 				var regions []ast.Node
 				arm := false
 				if len(ifs.Body.List) == 1 {
-					if br, ok := ifs.Body.List[0].(*ast.BranchStmt); ok && br.Tok == token.CONTINUE && br.Label == nil && block == rs.Body {
+					if br, ok := ifs.Body.List[0].(*ast.BranchStmt); ok && br.Tok == token.CONTINUE && br.Label == nil && block == loopBody {
 						skipWhenTrue = true
 						seen := false
 						for _, s := range block.List {
@@ -1103,6 +1080,41 @@ func (t *c41tTree) ruleP1b(db *packages.Package) {
 				}
 				return true
 			})
+		}
+		ast.Inspect(fd.Body, func(x ast.Node) bool {
+			// the children a loop enumerates: the value variable of a range, and the tree-typed variables that statements
+			// directly in the loop body define (child := load(...), child := list[i])
+			var body *ast.BlockStmt
+			var cands []types.Object
+			switch l := x.(type) {
+			case *ast.RangeStmt:
+				body = l.Body
+				if vid, ok := l.Value.(*ast.Ident); ok && vid.Name != "_" {
+					if v := info.Defs[vid]; v != nil {
+						cands = append(cands, v)
+					} else if v := info.Uses[vid]; v != nil {
+						cands = append(cands, v)
+					}
+				}
+			case *ast.ForStmt:
+				body = l.Body
+			default:
+				return true
+			}
+			for _, st := range body.List {
+				if as, ok := st.(*ast.AssignStmt); ok && as.Tok == token.DEFINE {
+					for _, l := range as.Lhs {
+						if id, ok := l.(*ast.Ident); ok && id.Name != "_" && info.Defs[id] != nil {
+							cands = append(cands, info.Defs[id])
+						}
+					}
+				}
+			}
+			for _, v := range cands {
+				if u := t.nodeOf(v.Type()); u != nil {
+					process(body, v, u)
+				}
+			}
 			return true
 		})
 	})
